@@ -238,6 +238,9 @@ def check_areas(spec: dict) -> dict:
             raise Violation("cds_region", {"gene": name, "got": str(cds.region), "want": str(want_region)})
     return {"nontrivial": added_after_area,
             "classes": ["circular" if spec["circular"] else "linear",
+                        "free_order" if spec["ops"].index("regions") < max(
+                            [i for i, op in enumerate(spec["ops"]) if op.startswith(("proto", "sub"))] or [-1])
+                        else "areas_before_regions",
                         "gene_after_area" if added_after_area else "genes_first",
                         "has_regions" if regions else "no_regions",
                         "span_area" if any(len(a.location.parts) > 1 for _, a in collections) else "plain_areas"]}
@@ -320,6 +323,9 @@ def area_specs(draw):
     third = draw(st.permutations([f"cds:{i}" for i, phase in enumerate(phases) if phase == 2]))
     last = draw(st.permutations([f"cds:{i}" for i, phase in enumerate(phases) if phase == 3]))
     ops = list(first) + list(middle) + ["cands"] + list(third) + ["regions"] + list(last)
+    if draw(st.integers(0, 2)) == 0:
+        # any interleaving at all: areas may be added after candidates / regions were created
+        ops = list(draw(st.permutations(ops)))
     return {"L": length, "circular": circular, "genes": genes, "protoclusters": protos,
             "subregions": subs, "ops": ops}
 
